@@ -1393,6 +1393,37 @@ func (e *cEnv) evalCall(n *ast.CallExpr) (Val, error) {
 			switch id.Name {
 			case "panic":
 				return Val{}, &panicked{pos: n.Pos(), msg: types.ExprString(n)}
+			case "append":
+				// pure: a new list (tables are immutable values here)
+				if len(n.Args) == 0 {
+					break
+				}
+				base, err := e.eval(n.Args[0])
+				if err != nil {
+					return Val{}, err
+				}
+				if base.K == VNil {
+					base = Val{K: VList}
+				}
+				if base.K != VList {
+					return Val{}, undecidedf(n, "append to %s", base)
+				}
+				out := Val{K: VList, T: append([]Val(nil), base.T...)}
+				for i, a := range n.Args[1:] {
+					v, err := e.eval(a)
+					if err != nil {
+						return Val{}, err
+					}
+					if n.Ellipsis.IsValid() && i == len(n.Args)-2 {
+						if v.K != VList {
+							return Val{}, undecidedf(n, "append of %s...", v)
+						}
+						out.T = append(out.T, v.T...)
+					} else {
+						out.T = append(out.T, v)
+					}
+				}
+				return out, nil
 			case "min", "max":
 				var best Val
 				for i, a := range n.Args {
